@@ -2558,6 +2558,12 @@ impl<'c, 's:'c, 'r, 'm:'c> SpeechRulesWithContext<'c, 's,'m> {
         return Ok( result );
     }
 
+    /// True if the string being built is markup for a speech engine (SSML, SAPI5): text taken from the input then needs XML escaping.
+    fn is_xml_output(&self) -> bool {
+        return matches!(self.speech_rules.name, RulesFor::Speech | RulesFor::OverView | RulesFor::Navigation) &&
+               self.speech_rules.pref_manager.borrow().get_tts() != TTS::None;
+    }
+
     /// Lookup unicode "pronunciation" of char.
     /// Note: TTS is not supported here (not needed and a little less efficient)
     pub fn replace_chars(&'r mut self, str: &str, mathml: Element<'c>) -> Result<String> {
@@ -2574,7 +2580,8 @@ impl<'c, 's:'c, 'r, 'm:'c> SpeechRulesWithContext<'c, 's,'m> {
                 return replace_single_char(self, ch, mathml)
             } else {
                 // more than one char -- fix up non-breaking space
-                return Ok(str.replace('\u{00A0}', " ").replace(['\u{2061}', '\u{2062}', '\u{2063}', '\u{2064}'], ""))
+                let text = str.replace('\u{00A0}', " ").replace(['\u{2061}', '\u{2062}', '\u{2063}', '\u{2064}'], "");
+                return Ok( if self.is_xml_output() {TTS::escape_xml(&text)} else {text} );
             }
         };
 
@@ -2605,7 +2612,8 @@ impl<'c, 's:'c, 'r, 'm:'c> SpeechRulesWithContext<'c, 's,'m> {
                 if replacements.is_none() {
                     // debug!("*** Did not find unicode {} for char '{}'/{:#06x}", rules.name, ch, ch_as_u32);
                     rules_with_context.translate_count = 0;     // not in loop
-                    return Ok(String::from(ch));   // no replacement, so just return the char and hope for the best
+                    // no replacement, so just return the char and hope for the best
+                    return Ok( if rules_with_context.is_xml_output() {TTS::escape_xml(&String::from(ch))} else {String::from(ch)} );
                 }
             };
 
